@@ -2,7 +2,7 @@
    signature so that a single small OCaml driver (or a generated cases.v) can run
    them:  dispatch id scalars coords indices : option (list Q). *)
 From Coq Require Import List ZArith QArith Bool.
-Require Import Cox.Num.Ops Cox.Geo.Vec Cox.Model.Mesh Cox.Model.Polygon Cox.Model.Inside Cox.Model.Curved Cox.Model.Structure.
+Require Import Cox.Num.Ops Cox.Geo.Vec Cox.Model.Mesh Cox.Model.Polygon Cox.Model.Inside Cox.Model.Curved Cox.Model.Structure Cox.Model.Balls.
 Import ListNotations.
 
 Fixpoint group3 (l : list Q) : list (vec3 Q) :=
@@ -158,6 +158,23 @@ Section Entries.
   (* 41: per-edge data for dihedral angles / mean curvature *)
   Definition e_edge_data (qs : list Q) (idx : list (list nat)) : list Q :=
     concat (edge_data O (group3 qs) idx).
+
+  (* 45: candidate ball. sc = [cx; cy; cz], qs = vertices, idx = faces ->
+     [n; |v_i - c|^2 ...; then per face (N.(c - v0); N.N) ...] *)
+  Definition e_balls (sc qs : list Q) (idx : list (list nat)) : list Q :=
+    let V := group3 qs in
+    let c := (nth 0 sc 0, nth 1 sc 0, nth 2 sc 0) in
+    [n2q (length V)] ++ dist2s O V c
+      ++ flat_map (fun m => [fst m; snd m]) (plane_margins O V idx c).
+  (* 46: exact circumsphere / circumcircle solve. sc = [] (polyhedron) or [nx; ny; nz] (polygon) ->
+     [solvable; x(3) = centre - v0; residual^2] *)
+  Definition e_circum (sc qs : list Q) : list Q :=
+    let V := group3 qs in
+    let extra := match sc with nx :: ny :: nz :: _ => Some (nx, ny, nz) | _ => None end in
+    match circum_solve O V extra with
+    | None => [0]
+    | Some xr => [1] ++ v3l (fst xr) ++ [snd xr]
+    end.
 End Entries.
 
 Definition dispatch (f : nat) (sc qs : list Q) (idx : list (list nat)) : option (list Q) :=
@@ -179,5 +196,7 @@ Definition dispatch (f : nat) (sc qs : list Q) (idx : list (list nat)) : option 
   | 30 => Some (e_curved sc)
   | 40 => Some (e_structure qs idx)
   | 41 => Some (e_edge_data qs idx)
+  | 45 => Some (e_balls sc qs idx)
+  | 46 => Some (e_circum sc qs)
   | _ => None
   end%nat.
